@@ -290,15 +290,19 @@ def plan(tier):
                               defines=[tdef, 'C15_MODE=1', 'VF_PART=%d' % part], shards=6 if t else 3))
     # (2) literals
     lit = literal_lines(t)
-    nlit = 24 if t else 4
+    # one suffix kind per unit: a change that makes the library REJECT some tokens at compile time then breaks
+    # only the units of that kind (reported as INFRA for those units) while the other kinds still run
+    nlit = 6 if t else 1
     parts = {k: split(v, nlit) for k, v in lit.items()}
+    kinds = ['c', 'cnl', 'cnl2', 'wide']
     for comp in ('g++', 'clang++'):
-        for i in range(nlit):
-            if comp == 'clang++' and not t and i % 2:
-                continue
-            units.append(dict(name='lit-%s-p%d' % (comp, i), src='C15.cpp', compiler=comp, mode='ndebug', opt='-O0',
-                              defines=[tdef, 'C15_MODE=2', 'C15_PART=%d' % i], shards=1,
-                              gen={'lit_c.inc': parts['c'][i], 'lit_cnl.inc': parts['cnl'][i], 'lit_cnl2.inc': parts['cnl2'][i], 'lit_wide.inc': parts['wide'][i]}))
+        for kind in kinds:
+            for i in range(nlit):
+                if comp == 'clang++' and not t and kind in ('c', 'wide'):
+                    continue
+                gen = {'lit_%s.inc' % kk: (parts[kk][i] if kk == kind else '\n') for kk in kinds}
+                units.append(dict(name='lit-%s-%s-p%d' % (comp, kind, i), src='C15.cpp', compiler=comp, mode='ndebug', opt='-O0',
+                                  defines=[tdef, 'C15_MODE=2', 'C15_PART=%d' % (kinds.index(kind) * 100 + i)], shards=1, gen=gen))
     # (3) deduction from constants
     cl = constant_lines(t)
     ncon = 16 if t else 4
